@@ -7,10 +7,10 @@ import Logrange.Proofs.FieldsKV
 Property theorems only (lemmas: `Logrange/Proofs/{KV,Tags,FieldsKV}.lean`; models: `Logrange/Model/{Quote,KV,Tags,
 FieldsKV}.lean`). Every theorem here is an obligation of the C08 check.
 
-The full statements (`tags_roundtrip_full`, `mapset_roundtrip_full`, `fromKV_WF_full`) are **false** for the code as it
-is (open findings F08, F08b): they stay here as `def … : Prop` with kernel-checked counterexamples (`cex_…`), and
-the `…_partial` theorems are proved under the explicit decidable hypotheses `Tags.safe` / "every decoded piece fits
-into 255 bytes". What `strconv.Quote`/`Unquote` contribute is the contract `QuoteContract`
+The full statements (`tags_roundtrip_full`, `mapset_roundtrip_full`, `fields_roundtrip_full`, `provenance_full`) are
+**false** for the code as it is (open findings F08, F08b, F08c): they stay here as `def … : Prop` with kernel-checked counterexamples (`cex_…`), and
+the `…_partial` theorems are proved under the explicit decidable hypothesis `Tags.safe`. Well-formedness of parsed
+fields (`fromKV_WF`) is unconditional since fix 72eac47 (the limit is tested again after unquoting). What `strconv.Quote`/`Unquote` contribute is the contract `QuoteContract`
 (`unquote (quote v) = v`, and `quote v` is `"body"` with no bare quote and paired escapes); it is **proved** on the
 byte-level model of `strconv` (`unquote_quote`, `quote_shape`, for every byte string and whatever `IsPrint` table,
 given only that `\n` is not printable), and the harness evaluates it on the real `strconv` on every run.
@@ -25,8 +25,6 @@ open Go Logrange.Quote Logrange.KV Logrange.Tags Logrange.FieldsKV Logrange.Proo
 def tags_roundtrip_full : Prop := ∀ t m, parse t = some m → parse (line m) = some m
 /-- every map (`tag.MapToSet`, the collector's path): the emitted line denotes the same set -/
 def mapset_roundtrip_full : Prop := ∀ m, Map.WF m → parse (line m) = some m
-/-- every accepted field text yields a well-formed binary field list -/
-def fromKV_WF_full : Prop := ∀ t f, fromKV t = some f → WF f
 /-- every accepted field text: `AsKVString` of the result is accepted and denotes the same fields -/
 def fields_roundtrip_full : Prop := ∀ t f, fromKV t = some f → ∃ kv, asKV f = .ok kv ∧ fromKV kv = some f
 /-- a pipe's provenance fields (`field.Parse(srcTags)`) list exactly the pairs of the source's tag set -/
@@ -88,11 +86,30 @@ theorem line_independent_of_spelling (t1 t2 : Bytes) (m1 m2 : Map) (h1 : parse t
 /-- what a parse returns is a map: keys strictly increasing (no duplicates) -/
 theorem parse_is_map (t : Bytes) (m : Map) (h : parse t = some m) : Map.WF m := parse_WF t m h
 
-/-- **Parsed fields are well-formed binary fields**, provided every decoded piece fits into one length byte. -/
-theorem fromKV_WF_partial (t : Bytes) (items : List Bytes) (h : fromKVItems t = some items)
-    (hlen : ∀ p ∈ items, p.length ≤ 255) : fromKV t = some (encodeItems items) ∧ WF (encodeItems items) := by
-  refine ⟨by simp [fromKV, h], items, ?_, fromKVItems_even t items h⟩
-  exact decode_encode items hlen _ (encodeItems_length items)
+/-- the limit of `NewFieldsFromKVString` is 255, tested on the raw piece and (fix 72eac47) again on the unquoted
+value — the facts `fromKV_WF` and the class of F08b rest on -/
+theorem field_limit_facts : Logrange.Generated.C08.fieldMaxLen = 255 ∧ Logrange.Generated.C08.fieldLimitBeforeUnquote = true ∧
+    Logrange.Generated.C08.fieldLimitAfterUnquote = true := by
+  decide
+
+/-- **Parsed fields are well-formed binary fields**: every accepted field text yields a byte string that decodes into
+an even number of pieces (names and values). Unconditional since fix 72eac47. -/
+theorem fromKV_WF (t : Bytes) (f : Bytes) (h : fromKV t = some f) : WF f := by
+  unfold fromKV at h
+  cases hi : fromKVItems t with
+  | none => simp [hi] at h
+  | some items =>
+    simp [hi] at h; subst h
+    have hlen : ∀ p ∈ items, p.length ≤ 255 :=
+      fromKVItems_items_le field_limit_facts.2.1 field_limit_facts.2.2 t items hi
+    exact ⟨items, decode_encode items hlen _ (encodeItems_length items), fromKVItems_even t items hi⟩
+
+/-- what the parser stores is exactly the encoding of the pieces it decoded, and they decode back -/
+theorem fromKV_decodes (t : Bytes) (items : List Bytes) (h : fromKVItems t = some items) :
+    fromKV t = some (encodeItems items) ∧ decodeItems (encodeItems items).length (encodeItems items) = some items := by
+  refine ⟨by simp [fromKV, h], ?_⟩
+  exact decode_encode items (fromKVItems_items_le field_limit_facts.2.1 field_limit_facts.2.2 t items h) _
+    (encodeItems_length items)
 
 /-- the quoting trigger of `tagMap.line()` regenerated from the source is the one the class of finding F08 was
 written for (empty, or contains `=` or `,`): a changed trigger breaks this obligation -/
@@ -103,10 +120,6 @@ theorem quote_trigger_pinned (v : Bytes) : needsQuote v = needsQuotePinned v := 
 /-- the same for `Fields.AsKVString()` (contains `,` or `=`; the empty value is printed as nothing) -/
 theorem field_trigger_pinned (v : Bytes) : needsQuoteF v = needsQuoteFPinned v := by
   simp [needsQuoteF, needsQuoteFPinned, Logrange.Generated.C08.fieldQuoteEmpty, Logrange.Generated.C08.fieldQuoteBytes]
-
-/-- the limit of `NewFieldsFromKVString` is 255 and (today) tested before unquoting — the facts F08b rests on -/
-theorem field_limit_facts : Logrange.Generated.C08.fieldMaxLen = 255 ∧ Logrange.Generated.C08.fieldLimitBeforeUnquote = true := by
-  decide
 
 /-- the KV functions are total: every input has an answer (ok or error), there is no panic outcome in
 `RemoveCurlyBraces`, `SplitString`, `TrimSpaces`, `ToMap`, `tag.Parse`, `NewFieldsFromKVString` -/
@@ -179,37 +192,36 @@ theorem provenance_full_false : ¬ provenance_full := by
   cases this
 
 
-/-- F08b witness: `k="<253 bytes 0x80>"` (255 bytes, passes the limit; every 0x80 unquotes to U+FFFD, 3 bytes) -/
-def f08bWitness : Bytes := [107,61,34] ++ List.replicate 253 128 ++ [34]
+/-- F08b1 (fixed by 72eac47) regression witness: `k="<253 bytes 0x80>"` (255 bytes; every 0x80 unquotes to U+FFFD,
+3 bytes) used to be accepted with a wrapped length byte; it is rejected now -/
+def f08b1Witness : Bytes := [107,61,34] ++ List.replicate 253 128 ++ [34]
 
-/-- the accepted text `f08bWitness` yields a byte string that is not a well-formed field list: `Check` rejects it,
-the reference decoder rejects it, and `AsKVString` panics on it -/
-theorem cex_fromKV_not_WF :
-    (fromKV f08bWitness).map (fun f => (check (f.length + 1) f, decodeItems f.length f, asKV f)) =
-      some (false, none, Res.panic) := by decide +kernel
+theorem f08b1_witness_rejected : fromKV f08b1Witness = none := by decide +kernel
 
-theorem fromKV_WF_full_false : ¬ fromKV_WF_full := by
-  intro h
-  have hc := cex_fromKV_not_WF
-  cases hf : fromKV f08bWitness with
-  | none => simp [hf] at hc
-  | some f =>
-    obtain ⟨items, hi, _⟩ := h _ _ hf
-    simp [hf, hi] at hc
+/-- F08b (what remains): `k="=<64 bytes 0x01>"` — a 65 byte value whose quoted form (`\\x01` per byte) has 259 bytes:
+accepted, printed through `strconv.Quote` because of the `=`, and the printed text is rejected by the limit on the
+raw piece -/
+def f08bWitness : Bytes := [107,61,34,61] ++ List.replicate 64 1 ++ [34]
 
-theorem fields_roundtrip_full_false : ¬ fields_roundtrip_full := by
-  intro h
-  have hc := cex_fromKV_not_WF
-  cases hf : fromKV f08bWitness with
-  | none => simp [hf] at hc
-  | some f =>
-    obtain ⟨kv, hk, _⟩ := h _ _ hf
-    simp [hf, hk] at hc
+theorem cex_quoted_form_too_long :
+    (fromKV f08bWitness).map (fun f => (decodeItems f.length f).map (fun it => it.map List.length)) = some (some [1, 65]) ∧
+    (match fromKV f08bWitness with
+     | some f => (match asKV f with | .ok kv => (decide (kv.length = 261), fromKV kv) | .panic => (false, none))
+     | none => (false, none)) = (true, none) := by decide +kernel
 
 /-- fields: value `x"y` is printed unquoted and the text is rejected (F08 in `AsKVString`) -/
 theorem cex_fields_value_with_quote :
     fromKV [97,61,34,120,92,34,121,34] = some [1,97,3,120,34,121] ∧
     asKV [1,97,3,120,34,121] = .ok [97,61,120,34,121] ∧ fromKV [97,61,120,34,121] = none := by decide +kernel
+
+theorem fields_roundtrip_full_false : ¬ fields_roundtrip_full := by
+  intro h
+  obtain ⟨h1, h2, h3⟩ := cex_fields_value_with_quote
+  obtain ⟨kv, hk, hf⟩ := h _ _ h1
+  rw [h2] at hk
+  cases hk
+  rw [h3] at hf
+  cases hf
 
 /-! ## Non-vacuity: the hypotheses are met by non-trivial concrete sets -/
 
@@ -218,7 +230,7 @@ example : safe [([97],[120,44,121]), ([98],[]), ([99],[120,34,121,34,122])] = tr
 /-- …and such sets are produced by the parser (`c=x"y"z,a=b`) -/
 example : parse [99,61,120,34,121,34,122,44,97,61,98] = some [([97],[98]), ([99],[120,34,121,34,122])] := by
   decide +kernel
-/-- `fromKV_WF_partial`'s hypothesis holds for an ordinary text -/
+/-- `fromKV_WF` is not vacuous: an ordinary text is accepted -/
 example : fromKVItems [97,61,98,44,99,61,34,100,34] = some [[97],[98],[99],[100]] := by decide +kernel
 /-- `line_deterministic` on two different iteration orders -/
 example : lineOf [([98],[49]), ([97],[50])] = lineOf [([97],[50]), ([98],[49])] := by decide +kernel
